@@ -206,6 +206,11 @@ def pyfftw_call(array_in, array_out, direction='forward', axes=None,
     else:
         fftw_plan = fftw_plan_in
 
+    if (direction == 'backward' and halfcomplex and array_in.ndim != 1 and
+            not array_in_copied):
+        # Multi-dimensional C2R transforms always destroy their input
+        array_in = array_in.copy()
+
     if not normalise_idft and direction=='forward':
         fftw_plan(array_in, array_out, normalise_idft=True)
     else:
